@@ -617,3 +617,5 @@ func truncate(s string, n int) string {
 func TestC13(t *testing.T) {
 	vlib.Check(t, "C13", genC13, runC13)
 }
+
+func FuzzC13(f *testing.F) { vlib.Fuzz(f, "C13", genC13, runC13) }
